@@ -44,6 +44,10 @@ CLAIMS = {
     text="Model: LiquidInterp's sink fails at every logical write k of every corpus program; TLC checks accepted-bytes-are-a-prefix of the fault-free run, error-iff-failed, no write after failure and stream = buffered for k = 0. Implementation: the harness drives the real render_to with a sink wrapper failing at every physical call k (whole-buffer and byte-at-a-time modes) and records every call; TLC validates the recorded trace against LiquidSink via Trace_Sink.tla (every event must be an enabled action; prefix invariant evaluated at every step; acceptance by postcondition).",
     note="bounded corpus (267 programs quick / ~3000 thorough, thinned to 1500 for tracing); trusted: the sink wrapper's logging; fault-free output equality with the specification is established by the replay stage.",
     tech=TECH_AB, ref="DESIGN.md 7 C10"),
+ "C13": dict(
+    text="LiquidFiltersStr defines every string filter as a recursive TLA+ function on sequences of Unicode scalar values (grapheme clusters for truncate) and chains as composition; TLC enumerates the bounded input space, evaluates the documented function for every case and checks the algebraic laws of the property (split/join identity, strip = lstrip o rstrip, truncate bound, slice contiguity, size in characters, capitalize touches only the first character, replace_first is a prefix of replace, default) as invariants; every case is replayed through {{ in | filter: args | __dump }} on the real parser and compared structurally.",
+    note="bounded: strings <= 3 (quick) / 4 (thorough) over a 10-character adversarial alphabet, arguments <= 1 / 2; two recorded findings (truncate measures in bytes) are matched by filter name and non-ASCII input shape; two repaired defects (size, slice).",
+    tech=TECH_A, ref="DESIGN.md 7 C13"),
  "C18": dict(
     text="TLC explores every operation sequence of the explicit TLA+ specification LiquidRuntime up to the stated length from all 9 base maps, checks the declarative scope meaning against the delegation-chain form in every state, and every explored sequence is replayed on the real StackFrame/SandboxedStackFrame/GlobalFrame types with all lookups, roots, counters and register ownership compared after every operation.",
     note="bounded: length 3 (quick) / 4 exhaustive replay, 5 state-space, 6 reduced alphabet + random walks (thorough); values are scalars and one-key objects; trusted: TLC, the harness's encoding of observations.",
